@@ -260,9 +260,9 @@ for _k, _v in EXTRA_TEXT.items():
     CLAIMS[_k]["text"] += _v
 EXTRA_TEXT4 = {
     "C02": " Fourth session: stream S02-multipart (allow_fix with multi-part lines that take part in node defects only once merged: the junction / V-node sets must come from the fixed traces).",
-    "C03": " Fourth session: S03 gives Z values to some or all traces of 16% of the maps (the shared z-coordinate gate in front of snapping and noding).",
+    "C03": " Fourth session: S03 gives Z values to some or all traces of 16% of the maps (the shared z-coordinate gate in front of snapping and noding); item ZCoordinates regenerates that gate and the removal: C03_generated_z_gate (true iff SOME geometry has Z).",
     "C05": " Fourth session: C05_generated_tables_from_output_branches (in the regenerated branches_and_nodes the node table and the branch labels are computed from exactly the returned branches, after the 1.01 x snap filter; item BranchesAndNodes is tied to C05) and stream S05-extraction (handshake and end-node incidence on the tables branches_and_nodes RETURNS, maps with sliver branches).",
-    "C07": " Fourth session: stream S07-network runs the same exact judge on Network(truncate_traces=True) -- z-coordinate removal, defensive copies, crop with the column data, renumbering -- for frames with Z values and every index kind, twice on the same caller's frame. The whole crop_to_target_areas is regenerated (item CropPipeline): C07_generated_crop / C07_generated_crop_expected prove that it returns, up to order, exactly one row per long single-part line piece of what the clip leaves of each input row (pieces inside a GeometryCollection included) with that row's data -- Crop.expected -- so the older C07 theorems speak about regenerated code; stream S07-generated-crop runs the compiled regenerated function against the real one with gpd.clip scripted per row.",
+    "C07": " Fourth session: stream S07-network runs the same exact judge on Network(truncate_traces=True) -- z-coordinate removal, defensive copies, crop with the column data, renumbering -- for frames with Z values and every index kind, twice on the same caller's frame. The whole crop_to_target_areas is regenerated (item CropPipeline): C07_generated_crop / C07_generated_crop_expected prove that it returns, up to order, exactly one row per long single-part line piece of what the clip leaves of each input row (pieces inside a GeometryCollection included) with that row's data -- Crop.expected -- so the older C07 theorems speak about regenerated code; stream S07-generated-crop runs the compiled regenerated function against the real one with gpd.clip scripted per row. C07_generated_z_removal: the regenerated remove_z_coordinates_from_geodata (label-aligned column assignment modelled in the prelude) keeps every row, label and datum for every index, duplicates included.",
     "C08": " Fourth session: stream S08-network (end to end, HISTORIES): 2-3 Network(...) calls on one caller's frame (overview without truncation / target area, four orders); per Network the boundary-intersection counts, weights 1/2/0, plain and weighted lengths, E = sum of end counts and Network.parameters = Spec.NetIn.param (Lean) on that network's own counts, lengths and area. The column cache of LineData is regenerated from its checked shape (item LineDataCache): C08_linedata_weights / C08_linedata_lengths (no cache columns in the frame: weights 1/2/0 of the boundary counts, weighted length = own length x weight), stream S08-generated-linedata runs the compiled cache against the real class; the defensive copy of Network.__post_init__ is an explicit parameter of the regenerated function and C08_network_values_from_a_copy proves that everything a Network keeps is a function of that copy.",
     "C10": " Fourth session: S10-stacking also plants traces at 0.95 x the stacking buffer (the outer edge of the window, where the candidate search must still reach).",
     "C11": " Fourth session: C11_intersection_filter_order_free (the regenerated determine_valid_intersection_points_no_vnode returns the same points for every permutation of the candidate rows and every digitising direction; items IntersectionFilter / GeneralNodes tied to C11); S11-validation-orbits has gadgets of one fracture digitised in three / four pieces (V-nodes at both ends of a trace). C11_F12_cache_named_columns_win states the known finding F12 on the regenerated LineData cache.",
